@@ -72,6 +72,20 @@ TRANSPARENT = {
     "std::option::Option::take",
 }
 
+# Container accessors: the result is an element of (or a view into) argument 0.
+ELEMENT_OF = {
+    "std::collections::HashMap::iter", "std::collections::HashMap::get",
+    "std::collections::HashMap::get_mut", "std::collections::HashMap::remove",
+    "std::collections::HashMap::values", "std::collections::HashMap::into_iter",
+    "std::collections::VecDeque::iter", "std::collections::VecDeque::pop_front",
+    "std::collections::VecDeque::pop_back", "std::collections::VecDeque::front",
+    "std::collections::VecDeque::get", "std::collections::VecDeque::into_iter",
+    "std::vec::Vec::pop", "std::vec::Vec::iter", "core::slice::iter", "core::slice::get",
+    "core::slice::iter_mut", "core::slice::get_mut", "core::slice::first", "core::slice::last",
+    "std::iter::IntoIterator::into_iter", "std::iter::Iterator::next",
+    "std::iter::Iterator::cloned", "std::iter::Iterator::rev",
+}
+
 
 def is_guard_type(tydesc):
     s = tydesc.get("s", "")
@@ -265,7 +279,48 @@ class Body:
         path = self._proj_path(proj)
         if not path:
             return base
-        return frozenset((rk, rd, pp + path) for (rk, rd, pp) in base)
+        out = set()
+        for (rk, rd, pp) in base:
+            out |= self._through_agg((rk, rd, pp + path), _stack)
+        return frozenset(out)
+
+    def _through_agg(self, term, _stack=None, depth=0):
+        """Resolve a field projection of a locally built aggregate to the operand stored there:
+        (agg Some(x))@Some.0 -> x ; (tuple (a, b)).1 -> b."""
+        rk, rd, path = term
+        if rk != "agg" or not path or depth > 6:
+            return {term}
+        st = self.blocks[rd[0]]["stmts"][rd[1]]
+        rv = st["rv"]
+        p = list(path)
+        if rv["ak"] == "adt" and p and p[0].startswith("@"):
+            if p[0][1:] != rv.get("variant"):
+                return {term}
+            p = p[1:]
+        if not p:
+            return {term}
+        idx = None
+        if rv["ak"] in ("adt", "tuple", "closure"):
+            if p[0].isdigit():
+                idx = int(p[0])
+            elif rv["ak"] == "adt":
+                idx = self._field_index(rv["def"], rv.get("variant"), p[0])
+        if idx is None or idx >= len(rv["ops"]):
+            return {term}
+        out = set()
+        for (k2, d2, p2) in self.operand_prov(rv["ops"][idx], _stack):
+            out |= self._through_agg((k2, d2, p2 + tuple(p[1:])), _stack, depth + 1)
+        return out
+
+    def _field_index(self, adt_path, variant, fname):
+        for a in self.facts["adts"]:
+            if a["path"] == adt_path:
+                for v in a["variants"]:
+                    if variant is None or v["name"] == variant:
+                        for i, f in enumerate(v["fields"]):
+                            if f["name"] == fname:
+                                return i
+        return None
 
     def operand_prov(self, op, _stack=None):
         if op["k"] in ("copy", "move"):
@@ -318,8 +373,12 @@ class Body:
                     continue
                 f = t["fn"]
                 p = norm(f.get("path")) if f["k"] == "def" else None
-                if p in TRANSPARENT and t["args"]:
+                if (p in TRANSPARENT or p in LOCK_ACQ) and t["args"]:
+                    # a guard denotes the cell it locks (guard liveness is tracked separately)
                     out |= self.operand_prov(t["args"][0], _stack)
+                elif p in ELEMENT_OF and t["args"]:
+                    out |= frozenset((rk, rd, pp + ("[]",))
+                                     for (rk, rd, pp) in self.operand_prov(t["args"][0], _stack))
                 else:
                     out.add(("ret", d[2], ()))
         if not out:
